@@ -16,6 +16,12 @@ func MonC08() *Mon {
 		Broadcast: func(n *Node, p Payload) {
 			switch p.T {
 			case dbft.ChangeViewType, dbft.RecoveryRequestType, dbft.RecoveryMessageType:
+				if p.T == dbft.RecoveryMessageType && n.Cur != nil && n.Cur.Kind == CNewTransaction {
+					// a subscribed backup that has already committed answers the notification by offering its
+					// state once more: nothing is asked for (wasteful, but not what the property forbids)
+					n.W.Stat("c08_recovery_offered_on_notification")
+					return
+				}
 				key := "cv-or-recovery-in-fault-free-run"
 				if p.Ht == 1 && n.W.Cfg.StartTip == 0 {
 					key = "D9-genesis-zero-timers"
@@ -245,6 +251,14 @@ func MonC16() *Mon {
 				}
 				if !sent {
 					n.W.Fail("C16", fmt.Sprintf("primary %d was notified of a new transaction during the extended wait but did not propose", n.ID), "no-prompt-proposal")
+				}
+			}
+			// whenever a transaction is in the pool by the end of the minimum-block-time timeout (it may have landed
+			// while the node was subscribing, too late for a notification) the proposal is made in that call
+			if d := n.D; c.Kind == CTimeout && c.H == c.PreHeight && c.V == c.PreView && d.BlockIndex == c.PreHeight && d.ViewNumber == c.PreView &&
+				d.ViewNumber == 0 && d.IsPrimary() && !n.WatchFlag && !d.RequestSentOrReceived() && !c.PreBlockSent {
+				if avail := n.cbGetVerifiedQuiet(); avail > 0 {
+					n.W.Fail("C16", fmt.Sprintf("primary %d left its timeout at (%d,%d) without a proposal although %d transaction(s) are in its pool", n.ID, c.H, c.V, avail), "waiting-with-transactions")
 				}
 			}
 		},
